@@ -34,7 +34,8 @@ def _arr(a):
         data = 'sha1:' + hashlib.sha1(data).hexdigest()
     else:
         data = data.hex()
-    return ['nd', a.dtype.str, list(a.shape), data]
+    return ['nd', a.dtype.str, list(a.shape), data,
+            'rw' if a.flags.writeable else 'ro']
 
 
 def _time(t):
@@ -81,6 +82,21 @@ def _wcs(w):
     except Exception:
         fields.append(['pc', None])
     fields.append(['pixel_shape', canon(w.pixel_shape)])
+    for name in ('pixel_bounds', 'array_shape'):
+        try:
+            fields.append([name, canon(getattr(w, name))])
+        except Exception:
+            fields.append([name, None])
+    try:
+        fields.append(['cd', canon(np.array(ww.cd)) if ww.has_cd() else None])
+    except Exception:
+        fields.append(['cd', None])
+    sip = getattr(w, 'sip', None)
+    fields.append(['sip', None if sip is None else
+                   [canon(getattr(sip, n, None))
+                    for n in ('a', 'b', 'ap', 'bp', 'crpix')]])
+    for name in ('cpdis1', 'cpdis2', 'det2im1', 'det2im2'):
+        fields.append([name, getattr(w, name, None) is not None])
     return ['wcs', fields]
 
 
@@ -169,6 +185,10 @@ def canon(obj, _depth=0):
         return ['unit', obj.to_string()]
     if isinstance(obj, Table):
         return _table(obj)
+    from astropy.io.fits import Header
+    if isinstance(obj, Header):
+        return ['header', [[c.keyword, canon(c.value, d), c.comment]
+                           for c in obj.cards]]
 
     # regions
     from regions import (PixCoord, Region, RegionBoundingBox, RegionMask,
